@@ -42,7 +42,53 @@ func treeDigest(dir string) string {
 
 // genCrashHistory: incarnation 0 = ingest history with flushes/rotations; incarnation 1 = recovery:
 // queries, further ingest + flush, queries again.
+// genIDLenHistory: one index whose events carry a unique string id that grows by one character somewhere in
+// the history ("r-9999" -> "r-10000"), in batches large enough (more than 500 distinct values) for the column
+// to be stored raw instead of dictionary-encoded: the per-column value length recorded in the segment's running
+// metadata has to follow such a change, and after a crash that metadata is all the recovery has.
+func genIDLenHistory(r *rand.Rand) *plan.Plan {
+	p := &plan.Plan{Knobs: swarmKnobs(r), Params: map[string]any{"fs_trace": true}}
+	inc := plan.Incarnation{Boot: "full", SchedSeed: r.Uint64()>>11 | 1}
+	first := 520 + r.IntN(130)
+	n := 10_000 - first - r.IntN(120) // the id length changes in the second batch
+	var all []string
+	nb := 2 + r.IntN(3)
+	for b := 0; b < nb; b++ {
+		ne := 520 + r.IntN(130)
+		if b == 0 {
+			ne = first
+		}
+		var evs []json.RawMessage
+		for j := 0; j < ne; j++ {
+			rid := fmt.Sprintf("r-%d", n)
+			all = append(all, rid)
+			evs = append(evs, json.RawMessage(fmt.Sprintf(`{"vid":%q,"timestamp":%d,"rid":%q,"level":%q,"n":%d}`, "L"+rid, simEpochMs+int64(r.IntN(3_600_000)), rid, []string{"info", "warn", "error"}[r.IntN(3)], n)))
+			n++
+		}
+		inc.Ops = append(inc.Ops, plan.Op{Kind: "ingest", Index: "ixidlen", Events: evs})
+		if b < nb-1 || r.IntN(2) == 0 {
+			inc.Ops = append(inc.Ops, plan.Op{Kind: "flush"})
+		}
+	}
+	p.Incs = append(p.Incs, inc)
+	inc1 := plan.Incarnation{Boot: "full", SchedSeed: r.Uint64()>>11 | 1}
+	inc1.Ops = append(inc1.Ops, matchAll("ixidlen", len(all)+100), countQuery("ixidlen"))
+	for i := 0; i < 10; i++ {
+		rid := all[r.IntN(len(all))]
+		if i < 4 {
+			rid = all[len(all)-1-r.IntN(first)] // the later blocks
+		}
+		inc1.Ops = append(inc1.Ops, plan.Op{Kind: "query", Index: "ixidlen", Text: fmt.Sprintf(`rid=%q`, rid), Start: qStart, End: qEnd, Size: 50,
+			Args: map[string]any{"includeNulls": true, "find": "L" + rid}})
+	}
+	p.Incs = append(p.Incs, inc1)
+	return p
+}
+
 func genCrashHistory(r *rand.Rand, quick bool) *plan.Plan {
+	if r.IntN(5) == 0 {
+		return genIDLenHistory(r)
+	}
 	o := histOpts{families: []string{"flat", "nested", "mixed", "sparse", "card"}, maxIdx: 2, minBatches: 3, maxBatches: 8, maxEvents: 30, restarts: false, finalOnly: true,
 		queries: func(ix string, n int) []plan.Op { return nil }}
 	p := genHistory(r, o)
@@ -203,6 +249,25 @@ func crashOracle(prop string, res *RunResult) []Violation {
 				}
 				if len(q.Errors) > 0 {
 					vs = append(vs, Violation{Sig: prop + ":query-reports-errors-after-recovery", Msg: where + ": " + strings.Join(q.Errors, "; ")})
+				}
+				if fv, ok := op.Args["find"].(string); ok {
+					// an event of a completed flush must be found by the value of its own field, exactly once
+					must := false
+					for i, x := range m.ByIndex[op.Index] {
+						if x.VID == fv && i < m.Flushed[op.Index] {
+							must = true
+						}
+					}
+					n := 0
+					for _, rec := range q.Records {
+						if v, _ := rec["vid"].(string); v == fv {
+							n++
+						}
+					}
+					if must && n != 1 {
+						vs = append(vs, Violation{Sig: prop + ":flushed-event-not-found-by-its-value", Msg: fmt.Sprintf("%s: %s returned %d records, event %s found %d times (its flush had completed before the crash)", where, op.Text, len(q.Records), fv, n)})
+					}
+					continue
 				}
 				if strings.Contains(op.Text, "stats count") && visible[op.Index] == nil {
 					continue // no match-all to compare with (shrunk plan)
@@ -398,6 +463,9 @@ func runC07(c *Ctx) {
 	c.Parallel(nHist, 0, func(i int) {
 		r := c.Rng(uint64(i) + 1)
 		p := genCrashHistory(r, c.Quick())
+		if i%5 == 1 {
+			p = genIDLenHistory(r) // every tier holds histories of this family
+		}
 		p.Property = "C07"
 		p.Seed = c.Seed*1_000_003 + uint64(i)
 		res, err := RunPlan(p, genericBetween)
